@@ -218,6 +218,16 @@ def lift(v, typ=None):
         for x in v:
             t = z3.Store(t, lift(x, typ.args[0]).t, z3.BoolVal(True))
         return SV(typ, t)
+    if k == 'Map' and isinstance(v, dict):
+        kt, vt = typ.args
+        dom = z3.K(zsort(kt), z3.BoolVal(False))
+        val = z3.K(zsort(kt), lift_default(vt))
+        for kk, vv in v.items():
+            kx = lift(kk, kt) if not isinstance(kk, SV) else coerce(kk, kt)
+            vx = lift(vv, vt) if not isinstance(vv, SV) else coerce(vv, vt)
+            dom = z3.Store(dom, kx.t, z3.BoolVal(True))
+            val = z3.Store(val, kx.t, vx.t)
+        return map_mk(typ, dom, val)
     if k == 'Seq' and isinstance(v, (list, tuple)):
         arr = z3.K(z3.IntSort(), lift_default(typ.args[0]))
         for i, x in enumerate(v):
